@@ -1034,9 +1034,11 @@ func (in *Interp) evalCells(ts []*sym.Term, model map[string]string) map[int]int
 func init() {
 	reg(rtPkg+"TempDir", func(in *Interp, fn *ssa.Function, a []Value) (Value, *iPanic) {
 		fs := in.theFS()
-		fs.dirs["/vr"] = true
-		fs.durableDirs["/vr"] = true
-		return in.mkString("/vr"), nil
+		for _, d := range []string{"/vr", "/vr/root"} {
+			fs.dirs[d] = true
+			fs.durableDirs[d] = true
+		}
+		return in.mkString("/vr/root"), nil
 	})
 	reg(rtPkg+"Cleanup", func(in *Interp, fn *ssa.Function, a []Value) (Value, *iPanic) { return nil, nil })
 	reg(rtPkg+"Crashable", func(in *Interp, fn *ssa.Function, a []Value) (res Value, ip *iPanic) {
@@ -1081,6 +1083,15 @@ func init() {
 	reg(rtPkg+"OnIdle", func(in *Interp, fn *ssa.Function, a []Value) (Value, *iPanic) {
 		in.extra["idlehook"] = a[0]
 		return nil, nil
+	})
+	reg(rtPkg+"OutsideWrites", func(in *Interp, fn *ssa.Function, a []Value) (Value, *iPanic) {
+		root := cleanPath(in.argStr(a[0]))
+		for _, p := range in.theFS().mutated {
+			if p != root && !strings.HasPrefix(p, root+"/") {
+				return in.mkString(p), nil
+			}
+		}
+		return in.mkString(""), nil
 	})
 	reg(rtPkg+"Carry", func(in *Interp, fn *ssa.Function, a []Value) (Value, *iPanic) {
 		v := in.conInt(a[1].(*sym.Term), "rt.Carry value")
